@@ -10,8 +10,10 @@ import (
 	"log"
 	"net"
 	"os"
+	"runtime"
 	"sort"
 	"strings"
+	"sync"
 	"time"
 
 	"github.com/netflix/rend/common"
@@ -61,6 +63,31 @@ func (s *segReader) Read(p []byte) (int, error) {
 	return n, nil
 }
 func (s *segReader) Left() int { return len(s.data) - s.pos }
+
+// yieldReader delivers the stream in pieces of 1..max bytes and yields the processor before every
+// read, so that other goroutines run while the reader's owner is in the middle of a request.
+type yieldReader struct {
+	data  []byte
+	pos   int
+	state uint32
+	max   int
+}
+
+func (y *yieldReader) Read(p []byte) (int, error) {
+	runtime.Gosched()
+	if y.pos >= len(y.data) {
+		return 0, io.EOF
+	}
+	y.state = y.state*1664525 + 1013904223
+	n := 1 + int(y.state>>16)%y.max
+	if n > len(p) {
+		n = len(p)
+	}
+	n = copy(p[:n], y.data[y.pos:])
+	y.pos += n
+	return n, nil
+}
+func (y *yieldReader) Left() int { return len(y.data) - y.pos }
 
 // connReader reads from a net.Conn fed by a writer goroutine (segments written one by one).
 type connReader struct {
@@ -783,6 +810,7 @@ func c07(e *env) {
 	g := gen07{r}
 	imports := []string{"base.Bytes", "base.Harness", "spec.MapSpec", "orca.Types", "proto.Resp", "checks.Check07"}
 	w.Res.Rule = "a pipeline counts as non-trivial when a request has key and data, or is a get batch of >= 2 keys, or some tried segmentation cut the stream inside a request; " +
+		"concurrent tier: 3..8 streams (binary ones starting with a quiet-get batch, every fourth text) decoded at the same time by separate parsers, delivered in pieces of 1..23 bytes with a yield before every read, half the rounds on one processor: each must decode as it does alone; " +
 		"raw near-valid inputs count when the parser answered with a request or a client error; first bytes 0x80/0x81/'A'/'a'..'z' count"
 
 	for _, a := range e.args {
@@ -918,6 +946,78 @@ func c07(e *env) {
 		x.doFirst(f, b)
 	}
 	w.Res.Stats["seconds_first_byte"] = time.Since(t0).Seconds()
+	// tier D: several connections being decoded at the same time. Each stream starts with a quiet-get
+	// batch and arrives in small pieces with the goroutine yielding before every read, so that the
+	// parsers of the other streams run while this one is in the middle of a request. What a stream
+	// decodes to must be what it decodes to alone: whatever the parsers share (header pools) must
+	// not carry one connection's request into another's.
+	t0 = time.Now()
+	rounds := 40
+	if e.tier == "thorough" {
+		rounds = 600
+	}
+	for round := 0; round < rounds; round++ {
+		old := runtime.GOMAXPROCS(0)
+		if round%2 == 0 {
+			runtime.GOMAXPROCS(1) // one P: its pool cache is shared by all the parsing goroutines
+		}
+		np := 3 + r.Intn(6)
+		type stream struct {
+			proto string
+			reqs  []wire.Req
+			data  []byte
+			alone decoded
+			got   decoded
+			seed  uint32
+		}
+		ss := make([]*stream, np)
+		for i := range ss {
+			st := &stream{proto: "bin", seed: uint32(r.U64())}
+			if i%4 == 3 {
+				st.proto = "text"
+			}
+			n := 2 + r.Intn(5)
+			for j := 0; j < n; j++ {
+				var q wire.Req
+				switch {
+				case st.proto == "text":
+					q = g.textReq(false)
+				case j == 0:
+					q = g.batch(wire.Get, g.binKey)
+				default:
+					q = g.binReq(false)
+				}
+				if q.Kind == wire.Quit {
+					q = wire.Req{Kind: wire.Noop, Opaque: g.u32()}
+				}
+				st.reqs = append(st.reqs, q)
+				st.data = append(st.data, encode(st.proto, q)...)
+			}
+			st.alone = parseSeq(st.proto, &segReader{data: st.data}, len(st.reqs))
+			ss[i] = st
+		}
+		var wg sync.WaitGroup
+		for _, st := range ss {
+			wg.Add(1)
+			go func(st *stream) {
+				defer wg.Done()
+				st.got = parseSeq(st.proto, &yieldReader{data: st.data, state: st.seed | 1, max: 1 + int(st.seed%23)}, len(st.reqs))
+			}(st)
+		}
+		wg.Wait()
+		runtime.GOMAXPROCS(old)
+		for i, st := range ss {
+			if !sameDecode(st.alone, st.got) {
+				w.Fail(rig.GoFailure{Kind: "counterexample", What: "a request stream decodes differently while other connections are being decoded at the same time than it does alone",
+					Input: map[string]interface{}{"tier": "concurrent", "round": round, "stream": i, "proto": st.proto, "wire": wire.Hex(st.data), "streams": np},
+					Detail: fmt.Sprintf("alone: %d requests, status %d, %d bytes unread; concurrently: %d requests, status %d (%s), %d bytes unread; sent %+v; decoded %+v",
+						len(st.alone.Seen), st.alone.Status, st.alone.Unread, len(st.got.Seen), st.got.Status, st.got.Err, st.got.Unread, st.reqs, st.got.Seen)})
+				break
+			}
+		}
+		w.Count("concurrent-decoding-rounds")
+	}
+	w.Res.Stats["seconds_concurrent"] = time.Since(t0).Seconds()
 	w.Res.Exhaustive = true // for the first-byte tier
 	w.Res.Stats["extra_evaluations"] = x.segs
 	w.Res.Stats["requests"] = x.nreq
